@@ -35,12 +35,16 @@ CUSTOM = {
     "c3": [[7], [0, " "], [1], [0, "/"], [2], [0, " ["], [3], [0, "] "], [4, []], [0, "% "], [5, []], [0, "|"], [8, [0, 9]], [0, "|"],
            [6, []]],
     "c4": [[0, " "], [1], [0, " ["], [3], [0, "]\n "], [7], [0, " "], [5, []]],
+    # [9, name]: a message set under a name of its own - set_message(text, name) - and shown by %name%
+    "c5": [[9, "title"], [0, ": "], [1], [0, "/"], [2], [0, " ["], [3], [0, "] "], [7]],
 }
 NEEDS_MAX = ("c2", "c3")
 NAMES = {1: "current", 2: "max", 3: "bar", 4: "percent", 5: "elapsed", 6: "estimated", 7: "message", 8: "remaining"}
 MSGS = ["working", "a longer message here", "<info>ok</info>", "<info>a considerably longer tagged message</info> <b>done</b>",
         "p<fg=red>q</>r", ""]
 PCHARS = ["<info>></info>", "<b>></b>"]        # a progress character carrying a tag: one visible cell
+TITLES = ["Downloading", "<comment>stage 2</comment> of 3"]      # the message named 'title' of format c5 (None: never set)
+MINSETS = [0.5, 0.05, 0.2, 0]       # min_seconds_between_redraws(v) called after the constructor (0: the call changes nothing)
 BELOW = ["below", "<info>two</info>\nlines", "a line of the section below that is longer than thirty cells"]
 
 
@@ -49,6 +53,8 @@ def fmt_string(pieces):
     for p in pieces:
         if p[0] == 0:
             out += p[1]
+        elif p[0] == 9:
+            out += "%" + p[1] + "%"
         else:
             sp = ""
             if len(p) > 1 and p[1]:
@@ -81,9 +87,18 @@ OPS = [[0, None], [0, 5], [1, 1], [1, 3], [1, -2], [2, 7], [3], [4], [5], [1, 0]
 
 def cfg_of(**kw):
     c = {"kind": "ansi", "verb": 0, "max": 10, "bw": 10, "min": 0.1, "fmt": None, "msg": None, "maxs": 1, "rf": None, "w": WIDTH,
-         "below": None, "pc": ">"}
+         "below": None, "pc": ">",
+         "out": None,        # None: a buffer with a forced AnsiFormatter / a PlainFormatter; "tty": a stream that supports ANSI with an
+                             # AnsiFormatter that is NOT forced (what a real terminal gives)
+         "minset": None,     # min_seconds_between_redraws(v) after the constructor
+         "named": None}      # the message named 'title' (format c5)
     c.update(kw)
     return c
+
+
+def min_interval(cfg):
+    """the configured minimum interval: the constructor's, or what the setter was given (it ignores values <= 0)"""
+    return cfg["minset"] if cfg["minset"] is not None and cfg["minset"] > 0 else cfg["min"]
 
 
 def norm_cfg(cfg):
@@ -106,6 +121,8 @@ def exhaustive_setups():
         (cfg_of(kind="section", max=3, bw=5, min=0, rf=2, below="below"), small + [[2, 3], [2, 6], [7, "x"]]),
         (cfg_of(verb=1, fmt="c1", msg=MSGS[1], min=0.05, pc=PCHARS[0]), small + [[2, 9], [2, 0], [6, MSGS[2]], [6, MSGS[3]]]),
         (cfg_of(kind="plain", max=0, bw=15, min=0), small + [[2, 1], [0, 0], [1, 0]]),
+        # a terminal (ANSI by the stream, formatter not forced), the minimum interval given to the setter, a named message
+        (cfg_of(out="tty", max=3, bw=6, min=0, minset=0.2, fmt="c5", named=TITLES[1], msg=MSGS[0]), small),
     ]
 
 
@@ -116,7 +133,7 @@ def gen(rng, tier, info):
     for cfg, al in exhaustive_setups():
         for k in range(1, depth + 1):
             for seq in itertools.product(range(len(al)), repeat=k):
-                for dts in ([0] * k, [200] * k, [50, 2000, 10, 0][:k]):
+                for dts in ([0] * k, [200] * k, [50, 2000, 10, 0][:k]) if cfg["minset"] is None else ([0] * k, [200] * k, [50, 200, 10, 0][:k]):
                     if k == 1 and dts != [0]:
                         continue
                     cases.append({"cfg": cfg, "ops": [[d, list(al[i])] for d, i in zip(dts, seq)]})
@@ -125,7 +142,7 @@ def gen(rng, tier, info):
         kind = rng.choice(["ansi", "ansi", "ansi", "plain", "plain", "section", "section", "section", "quiet",
                            rng.choice(["quietplain", "sectionplain", "quietsection"])])
         mx = rng.choice([0, 1, 3, 10, 50, 200])
-        fmt = rng.choice([None, None, None, "c1", "c2", "c3", "c4"])
+        fmt = rng.choice([None, None, None, "c1", "c2", "c3", "c4", "c5"])
         if fmt in NEEDS_MAX and mx == 0 and rng.random() < 0.9:
             fmt = "c4"     # %estimated% / %remaining% raise without a maximum (documented RuntimeError): kept rare
         sec = kind in ("section", "quietsection")
@@ -133,7 +150,10 @@ def gen(rng, tier, info):
                      fmt=fmt, msg=rng.choice([None, None] + MSGS), maxs=rng.choice([1, 1, 1, 0.5]), rf=rng.choice([None, None, 1, 2, 5]),
                      w=rng.choice([WIDTH, WIDTH, NARROW]) if sec else WIDTH,
                      below=rng.choice([None] + BELOW) if kind.startswith("section") or sec else None,
-                     pc=rng.choice([">"] * 5 + PCHARS))
+                     pc=rng.choice([">"] * 5 + PCHARS),
+                     out="tty" if is_ansi(kind) and rng.random() < 0.3 else None,
+                     minset=rng.choice(MINSETS) if rng.random() < 0.25 else None,
+                     named=rng.choice(TITLES + [None]) if fmt == "c5" else None)
         pool = [list(o) for o in OPS] + [[1, 1]] * 6 + [[1, max(1, mx // 4)]] + [[2, k] for k in set_values(mx)] \
             + [[6, m] for m in rng.sample(MSGS, 2)]
         if sec:
@@ -195,9 +215,13 @@ def wire(c):
             ops.append([dt, [o[0]]])
     custom = []
     if cfg["fmt"]:
-        custom = [[[p[0], S(p[1])] if p[0] == 0 else ([p[0], p[1]] if len(p) > 1 else [p[0]]) for p in CUSTOM[cfg["fmt"]]]]
+        # a named message is set once, before the first call: for the model it is a literal piece of the format (the
+        # placeholder itself when no message of that name was set - ProgressBar leaves an unknown placeholder as it is)
+        named = lambda p: [0, S(cfg["named"] if cfg["named"] is not None else "%" + p[1] + "%")]
+        custom = [[named(p) if p[0] == 9 else [p[0], S(p[1])] if p[0] == 0 else ([p[0], p[1]] if len(p) > 1 else [p[0]])
+                   for p in CUSTOM[cfg["fmt"]]]]
     return [int(is_ansi(cfg["kind"])), int(is_quiet(cfg["kind"])), int(is_section(cfg["kind"])), cfg["verb"], cfg["max"], cfg["bw"]] \
-        + fr(cfg["min"]) + fr(cfg["maxs"]) + [[] if cfg["rf"] is None else [cfg["rf"]], custom,
+        + fr(min_interval(cfg)) + fr(cfg["maxs"]) + [[] if cfg["rf"] is None else [cfg["rf"]], custom,
                                                [] if cfg["msg"] is None else [S(cfg["msg"])], T0, ops, cfg["w"],
                                                [w_style(s) for s in default_set()], [] if cfg["below"] is None else [S(cfg["below"])],
                                                S(cfg["pc"])]
@@ -225,7 +249,10 @@ def run_impl(c):
         from clikit.ui.components import ProgressBar
         Clock.now = T0
         kind = cfg["kind"]
-        io = BufferedIO(formatter=AnsiFormatter(forced=True) if is_ansi(kind) else PlainFormatter())
+        if cfg["out"] == "tty" and is_ansi(kind):
+            io = tty_io()
+        else:
+            io = BufferedIO(formatter=AnsiFormatter(forced=True) if is_ansi(kind) else PlainFormatter())
         secs = []
         target = io
         if is_section(kind):
@@ -240,6 +267,8 @@ def run_impl(c):
             gate.set_verbosity(cfg["verb"])
         init = io.fetch_error()
         bar = ProgressBar(target, cfg["max"], cfg["min"])
+        if cfg["minset"] is not None:
+            bar.min_seconds_between_redraws(cfg["minset"])
         bar.set_bar_width(cfg["bw"])
         if cfg["pc"] != ">":
             bar.set_progress_character(cfg["pc"])
@@ -251,6 +280,8 @@ def run_impl(c):
             bar.set_format(fmt_string(CUSTOM[cfg["fmt"]]))
         if cfg["msg"] is not None:
             bar.set_message(cfg["msg"])
+        if cfg["named"] is not None:
+            bar.set_message(cfg["named"], "title")
         trace = []
         t = termemu.Term(cfg["w"])
         t.feed(init)
@@ -291,6 +322,27 @@ def run_impl(c):
         time.time = real
 
 
+def tty_io():
+    """an IO on buffers that say they support ANSI (a terminal), with an AnsiFormatter that is not forced"""
+    from clikit.api.io import IO, Input, Output
+    from clikit.io.input_stream import StringInputStream
+    from clikit.io.output_stream import BufferedOutputStream
+    from clikit.formatter import AnsiFormatter
+
+    class Tty(BufferedOutputStream):
+        def supports_ansi(self):
+            return True
+
+    class TtyIO(IO):
+        def fetch_output(self):
+            return self.output.stream.fetch()
+
+        def fetch_error(self):
+            return self.error_output.stream.fetch()
+    f = AnsiFormatter()
+    return TtyIO(Input(StringInputStream("")), Output(Tty(), f), Output(Tty(), f))
+
+
 def builtin_formats(cls):
     return sorted(set(cls.formats.values()))
 
@@ -326,7 +378,8 @@ def good_line(l):
 
 def good_case(c):
     cfg = norm_cfg(c["cfg"])
-    msgs = ([cfg["msg"]] if cfg["msg"] is not None else []) + [o[1] for _, o in c["ops"] if o[0] == 6]
+    msgs = ([cfg["msg"]] if cfg["msg"] is not None else []) + [o[1] for _, o in c["ops"] if o[0] == 6] \
+        + ([cfg["named"]] if cfg["named"] is not None and cfg["fmt"] == "c5" else [])
     texts = ([cfg["below"]] if cfg["below"] is not None else []) + [o[1] for _, o in c["ops"] if o[0] == 7]
     return all(good_line(m) for m in msgs + [cfg["pc"]]) and all(good_line(l) for t in texts for l in t.split("\n"))
 
@@ -351,11 +404,13 @@ def in_history_class(c):
 _TIME = r"(?:< 1 sec|1 sec|\d+ secs|1 min|\d+ mins|1 hr|\d+ hrs|1 day|\d+ days)"
 
 
-def frame_regex(pieces, msg):
+def frame_regex(pieces, msg, named=None):
     rx = ""
     for p in pieces:
         k = p[0]
-        if k == 0:
+        if k == 9:
+            rx += re.escape("%" + p[1] + "%" if named is None else named)
+        elif k == 0:
             rx += " *\n".join(re.escape(part) for part in p[1].split("\n"))     # blanks pad every line of a frame
         elif k == 1:
             rx += r" *(?P<cur>\d+)"
@@ -472,7 +527,7 @@ def oracle(c, o):
                 cands = [fmtp] if fmtp else [parse_fmt(f) for f in builtin]
                 m = None
                 for pieces in cands:
-                    m = frame_regex(pieces, vmsg).match("\n".join(lines))
+                    m = frame_regex(pieces, vmsg, None if cfg["named"] is None else visible(cfg["named"])[0]).match("\n".join(lines))
                     if m:
                         break
                 if not m:
@@ -492,7 +547,7 @@ def oracle(c, o):
                 latest_frame = g
                 # throttle: a redraw caused by advancing that does not reach the maximum
                 if op[0] in (1, 2) and last_draw is not None and sim_step != sim_max \
-                        and Fraction(now - last_draw, 1000) < Fraction(cfg["min"]):
+                        and Fraction(now - last_draw, 1000) < Fraction(min_interval(cfg)):
                     return "redraw-inside-the-minimum-interval"
             last_draw = now
         # finish: the last frame after finish shows the maximum at 100 % (on a plain output it may be the frame drawn when
@@ -525,7 +580,7 @@ def shrink(c):
     for i in range(len(ops)):
         yield {"cfg": c["cfg"], "ops": ops[:i] + ops[i + 1:]}
     cfg = norm_cfg(c["cfg"])
-    for k, v in (("msg", None), ("fmt", None), ("verb", 0), ("rf", None), ("maxs", 1), ("below", None), ("pc", ">")):
+    for k, v in (("msg", None), ("fmt", None), ("verb", 0), ("rf", None), ("maxs", 1), ("below", None), ("pc", ">"), ("out", None), ("minset", None)):
         if cfg[k] != v and not (k == "fmt" and any(o[0] == 6 for _, o in ops)):
             yield {"cfg": dict(cfg, **{k: v}), "ops": ops}
     for i, (dt, o) in enumerate(ops):
